@@ -62,7 +62,7 @@ UNITS = [
 # the members that hand the coroutines to the scheduler are specified together with the ready queue (C05) and are part of this property too
 import importlib.util as _ilu, os as _os
 _s = _ilu.spec_from_file_location('c05_units', _os.path.join(_os.path.dirname(_os.path.dirname(_os.path.abspath(__file__))), 'C05', 'units.py')); _m = _ilu.module_from_spec(_s); _s.loader.exec_module(_m)
-UNITS += [u for u in _m.UNITS if u['name'] in ('suspend_now', 'clear', 'dtor', 'await_suspend')]
+UNITS += [u for u in _m.UNITS if u['name'] in ('suspend_now', 'clear', 'dtor', 'await_suspend', 'suspend_now_bounded', 'await_suspend_bounded')]
 
 META = dict(
     level='proof',
